@@ -505,10 +505,10 @@ def setitem(interp, st, base, idx, v):
             if a.readonly:
                 interp.oblige(st, "readonly-write", False, "write to read-only input")
             if m is True:
-                st.heap[a.bufid][p] = new
+                st.wbuf(a.bufid)[p] = new
             else:
                 old = st.heap[a.bufid][p]
-                st.heap[a.bufid][p] = interp.A.ite(m, new, old)
+                st.wbuf(a.bufid)[p] = interp.A.ite(m, new, old)
         return
     if not isinstance(idx, tuple):
         idx = (idx,)
@@ -562,7 +562,7 @@ def setitem(interp, st, base, idx, v):
         interp.oblige(st, "readonly-write", False, "write to read-only input")
     if not sym_axes:
         for p, x in zip(view0.positions(), src):
-            st.heap[a.bufid][p] = x
+            st.wbuf(a.bufid)[p] = x
         return
     import itertools
     for cand in itertools.product(*[range(n) for _, _, n in sym_axes]):
@@ -571,7 +571,7 @@ def setitem(interp, st, base, idx, v):
         view = Arr(a.bufid, off, shape, strides, a.dtype)
         for p, x in zip(view.positions(), src):
             old = st.heap[a.bufid][p]
-            st.heap[a.bufid][p] = interp.A.ite(cond, x, old)
+            st.wbuf(a.bufid)[p] = interp.A.ite(cond, x, old)
 
 
 # ---------------------------------------------------------------- attributes
@@ -849,7 +849,7 @@ def _sort_inplace(interp, st, a, **kw):
     else:
         srt = sorted(vals)
     for p, x in zip(a.positions(), srt):
-        st.heap[a.bufid][p] = x
+        st.wbuf(a.bufid)[p] = x
 
 
 def _item(interp, st, a, *args):
